@@ -105,14 +105,17 @@ fn mark_after_all<const L: usize, const N: u32, const NB: u32>(
     }
     let lo = set.iter().next().map(u32::from);
     let hi = set.iter().next_back().map(u32::from);
-    if exclude_zero {
-      vk::assume(lo != Some(0));
-    }
-    if exclude_beyond {
-      vk::assume(match hi {
-        Some(h) => h <= N,
-        None => true,
-      });
+    // The excluded class is "some member is 0 / beyond N".  It is stated over ALL members,
+    // not over the first/last one: with a base near u32::MAX the members wrap around (the
+    // iterator wraps since the numset-iter-overflow fix), so first/last are not min/max.
+    for f in set.iter() {
+      let f = u32::from(f);
+      if exclude_zero {
+        vk::assume(f != 0);
+      }
+      if exclude_beyond {
+        vk::assume(f <= N);
+      }
     }
     // (the SN is only a map key; a symbolic key made the container stand-in exceed 8 GB)
     let sn = SequenceNumber::new(7);
